@@ -12,7 +12,43 @@ import (
 
 func argT(fn *ssa.Function, i int) types.Type { return fn.Signature.Params().At(i).Type() }
 
+// redirects: standard-library functions replaced by Go-level models in vh/vstub (executed symbolically)
+var redirects = map[string]string{
+	"crypto/md5.New": "NewMD5", "crypto/sha1.New": "NewSHA1", "crypto/sha256.New": "NewSHA256", "crypto/sha256.New224": "NewSHA224",
+	"crypto/sha512.New": "NewSHA512", "crypto/sha512.New384": "NewSHA384", "crypto/sha512.New512_224": "NewSHA512_224", "crypto/sha512.New512_256": "NewSHA512_256",
+	"crypto/md5.Sum": "SumMD5", "crypto/sha1.Sum": "SumSHA1", "crypto/sha256.Sum256": "SumSHA256", "crypto/sha256.Sum224": "SumSHA224",
+	"crypto/sha512.Sum512": "SumSHA512", "crypto/sha512.Sum384": "SumSHA384", "crypto/sha512.Sum512_224": "SumSHA512_224", "crypto/sha512.Sum512_256": "SumSHA512_256",
+	"crypto/hmac.New": "NewHMAC", "net.IPv4": "IPv4", "(net.IP).String": "IPString",
+}
+
 func registerStdIntrinsics(m map[string]intrinsic) {
+	for from, to := range redirects {
+		to := to
+		from := from
+		m[from] = func(r *Run, caller *frame, fn *ssa.Function, args []Value) Value {
+			f := r.w.ex.stdFunc("vh/vstub", to)
+			if f == nil {
+				r.unsupported("vh/vstub.%s not loaded", to)
+			}
+			r.stubs[from+" -> vh/vstub."+to] = true
+			return r.callSSA(caller, f, args, nil)
+		}
+	}
+	digestNames := []string{"", "md5", "sha1", "sha224", "sha256", "sha384", "sha512", "sha512_224", "sha512_256"}
+	digestSizes := []int{0, 16, 20, 28, 32, 48, 64, 28, 32}
+	m["vh/vstub.DigestUF"] = func(r *Run, caller *frame, fn *ssa.Function, args []Value) Value {
+		kind := int(r.Concretize(r.termOf(args[0], "digest kind"), 16, "digest kind"))
+		data := r.sliceBytes(args[1].(Slice))
+		r.stubs["digest "+digestNames[kind]+" as uninterpreted function"] = true
+		return r.bytesUF(fmt.Sprintf("%s_%d", digestNames[kind], len(data)), digestSizes[kind], data)
+	}
+	m["vh/vstub.HmacUF"] = func(r *Run, caller *frame, fn *ssa.Function, args []Value) Value {
+		kind := int(r.Concretize(r.termOf(args[0], "digest kind"), 16, "digest kind"))
+		key := r.sliceBytes(args[1].(Slice))
+		data := r.sliceBytes(args[2].(Slice))
+		r.stubs["hmac-"+digestNames[kind]+" as uninterpreted function"] = true
+		return r.bytesUF(fmt.Sprintf("hmac_%s_%d_%d", digestNames[kind], len(key), len(data)), digestSizes[kind], append(append([]*Term(nil), key...), data...))
+	}
 	// ---- math/bits ----
 	bitsFn := func(f func(c *TermCtx, x *Term) *Term) intrinsic {
 		return func(r *Run, caller *frame, fn *ssa.Function, args []Value) Value {
@@ -297,20 +333,62 @@ func registerStdIntrinsics(m map[string]intrinsic) {
 	}
 }
 
-// fmtOpaque renders "format" with constant arguments best-effort; symbolic parts become "?".
+// fmtOpaque renders a *structural* stand-in for formatted text: the constant format string followed, for
+// every argument, by a tag and the argument's bytes (symbolic bytes stay symbolic).  Two such strings are
+// equal iff format and arguments are equal, which is what differential harnesses compare.
 func (r *Run) fmtOpaque(args []Value) Str {
-	f, ok := r.concreteString(args[0].(Str))
-	if !ok {
-		f = "<fmt>"
+	c := r.ctx()
+	var bs []*Term
+	lit := func(s string) {
+		for i := 0; i < len(s); i++ {
+			bs = append(bs, c.Const(8, uint64(s[i])))
+		}
 	}
-	out := f
+	if f, ok := args[0].(Str); ok {
+		bs = append(bs, r.strBytes(f)...)
+	}
 	if len(args) > 1 {
 		sl := args[1].(Slice)
 		for i := 0; i < sl.len; i++ {
-			out += "|" + r.describeArg(sl.obj.cells[sl.off+i])
+			lit("|")
+			v := sl.obj.cells[sl.off+i]
+			it, isI := v.(Iface)
+			if !isI || it.t == nil {
+				lit("<nil>")
+				continue
+			}
+			switch x := it.v.(type) {
+			case *Term:
+				t := x
+				if t.w == 0 {
+					t = c.Ite(t, c.Const(8, 1), c.Const(8, 0))
+				}
+				if t.w < 64 {
+					if _, signed, _ := intInfo(it.t); signed {
+						t = c.Sext(t, 64)
+					} else {
+						t = c.Zext(t, 64)
+					}
+				}
+				for k := 7; k >= 0; k-- {
+					bs = append(bs, c.Extract(t, k*8+7, k*8))
+				}
+			case Str:
+				lit(fmt.Sprintf("s%d:", x.n))
+				bs = append(bs, r.strBytes(x)...)
+			case Slice:
+				lit(fmt.Sprintf("b%d:", x.len))
+				if x.len > 0 {
+					if _, ok := x.obj.cells[x.off].(*Term); ok {
+						bs = append(bs, r.sliceBytes(x)...)
+					}
+				}
+			default:
+				lit(it.t.String())
+			}
 		}
 	}
-	return r.constString(out)
+	return r.mkString(bs)
 }
 
 func (r *Run) describeArg(v Value) string {
@@ -370,4 +448,25 @@ func (ex *Explorer) sourceInt63(t types.Type) *ssa.Function {
 		}
 	}
 	return nil
+}
+
+// bytesUF applies an uninterpreted function from len(in) bytes to n bytes and returns the result as a fresh []byte.
+func (r *Run) bytesUF(name string, n int, in []*Term) Value {
+	c := r.ctx()
+	var res *Term
+	if len(in) == 0 {
+		res = c.Var("uf0_"+name, n*8)
+	} else {
+		arg := in[0]
+		for _, b := range in[1:] {
+			arg = c.Concat(arg, b)
+		}
+		res = c.UF(name, n*8, arg)
+	}
+	o := r.allocArray(types.Typ[types.Uint8], n, "uf:"+name)
+	for i := 0; i < n; i++ {
+		hi := (n-i)*8 - 1
+		o.cells[i] = c.Extract(res, hi, hi-7)
+	}
+	return Slice{obj: o, len: n, cap: n}
 }
